@@ -45,7 +45,7 @@ import numpy as np
 import core
 
 LEAN_MODULE = "Optyx.Props.C14"
-EXTRA_MODULES = ["Optyx.Props.PinsC14", "Optyx.Props.StateTie", "Optyx.Props.BuildTie", "Optyx.Props.VarsStepTie", "Optyx.Props.DegreeEntryTie", "Optyx.Props.SpineTie"]   # transcription anchors (harness/source_pins.py)
+EXTRA_MODULES = ["Optyx.Props.PinsC14", "Optyx.Props.StateTie", "Optyx.Props.BuildTie", "Optyx.Props.VarsStepTie", "Optyx.Props.DegreeEntryTie", "Optyx.Props.SpineTie", "Optyx.Props.CompileEntryTie"]   # transcription anchors (harness/source_pins.py)
 THEOREMS = [
     "Optyx.Props.C14.cache_transparent",
     "Optyx.Props.C14.cache_transparent_run",
@@ -74,6 +74,10 @@ THEOREMS = [
     "Optyx.Props.SpineTie.depthG_eq",
     "Optyx.Props.SpineTie.compileSwitch_eq",
     "Optyx.Props.SpineTie.getAllVariables_eq",
+    "Optyx.Props.CompileEntryTie.compileExpression_eq",
+    "Optyx.Props.CompileEntryTie.dictFn_eq",
+    "Optyx.Props.CompileEntryTie.param_run",
+    "Optyx.Props.CompileEntryTie.compiledExpression_value",
     "Optyx.Props.PinsC14.anchors",
 ]
 ASSUMPTIONS = [
